@@ -23,12 +23,12 @@ type jv struct {
 	vals []*jv
 }
 
-func jNull() *jv             { return &jv{k: 'n'} }
-func jBool(b bool) *jv       { return &jv{k: map[bool]byte{true: 't', false: 'f'}[b]} }
-func jInt(i int64) *jv       { return &jv{k: 'i', i: i} }
-func jStr(s string) *jv      { return &jv{k: 's', s: s} }
-func jArr(items ...*jv) *jv  { return &jv{k: 'a', a: items} }
-func jObj() *jv              { return &jv{k: 'o'} }
+func jNull() *jv            { return &jv{k: 'n'} }
+func jBool(b bool) *jv      { return &jv{k: map[bool]byte{true: 't', false: 'f'}[b]} }
+func jInt(i int64) *jv      { return &jv{k: 'i', i: i} }
+func jStr(s string) *jv     { return &jv{k: 's', s: s} }
+func jArr(items ...*jv) *jv { return &jv{k: 'a', a: items} }
+func jObj() *jv             { return &jv{k: 'o'} }
 func (o *jv) set(k string, v *jv) *jv {
 	for i, kk := range o.keys {
 		if kk == k {
